@@ -71,6 +71,10 @@ def fmt(t):
     return f"{t[0]} errors={sorted(t[1], key=repr)} warnings={sorted(t[2], key=repr)}"
 
 
+_PAD = {"n": 0}
+_REUSED_V: dict = {}
+
+
 def texts_of(doc, seeds):
     """[(label, text, info)] : canonical spelling, lenient spellings, emitted canonical, canonical of canonical."""
     from octave_mcp import emit, parse
@@ -93,6 +97,13 @@ def texts_of(doc, seeds):
             out.append(("meta-key-repeated", "\n".join(lines[:j + 1] + [lines[j]] + lines[j + 1:]), ci))
     try:
         c1 = emit(parse(ct))
+        _PAD["n"] += 1
+        if _PAD["n"] % 60 == 0:
+            # trailing blanks are a documented freedom: here 1.2 million of them behind the envelope line (a respelling
+            # larger than any buffer a reader might be tempted to cap its input at)
+            head, _, rest = c1.partition("===\n")
+            if rest:
+                out.append(("padded-1.2M-blanks", head + "===" + " " * 1_200_000 + "\n" + rest, ci))
         out.append(("canonical-text", c1, ci))
         c2 = emit(parse(c1))
         if c2 != c1:
@@ -128,6 +139,18 @@ def relation(schema: str, texts, with_write: bool, root: str | None, section_sch
                 fails.append((f"C09:unlisted:verdict-differs-across-spellings:{prof}",
                               f"schema={schema} profile={prof}: [{base[prof][0]}] {fmt(base[prof][1])}  !=  [{label}] {fmt(t)} | "
                               f"text1={base[prof][2]!r} | text2={text!r}"))
+            if prof == "STANDARD" and root and "\r" not in text:
+                # the file_path route reads the same bytes from disk: same verdict, same canonical text
+                fpath = os.path.join(root, "route.oct.md")
+                with open(fpath, "w", encoding="utf-8", newline="") as fh:
+                    fh.write(text)
+                rf = validate_p(file_path=fpath, schema=schema, profile=prof)
+                if rf.get("status") == "success" and (triple(rf) != t or rf.get("canonical") != r.get("canonical")):
+                    fails.append(("C09:unlisted:file-route-differs-from-content-route",
+                                  f"octave_validate(file_path=...) answers {fmt(triple(rf))}, the same text passed as content {fmt(t)} ({label}; {len(text)} characters) | "
+                                  f"text={text[:600]!r}"))
+                elif rf.get("status") != "success":
+                    fails.append(("C09:unlisted:file-route-refused", f"octave_validate(file_path=...) refuses a text the content route accepts ({label}): {rf.get('errors')}"))
             if prof == "STANDARD":
                 if r.get("canonical") != plain:
                     fails.append(("C09:unlisted:validate-altered-content",
@@ -163,6 +186,13 @@ def relation(schema: str, texts, with_write: bool, root: str | None, section_sch
         if section_schemas is not None:
             errs = Validator(schema=None).validate(d, strict=False, section_schemas=section_schemas)
             tv = frozenset((e.code, e.field_path) for e in errs)
+            # one Validator object that has served every earlier document of this shard answers like a fresh one
+            if "v" not in _REUSED_V:
+                _REUSED_V["v"] = Validator(schema=None)
+            tr = frozenset((e.code, e.field_path) for e in _REUSED_V["v"].validate(d, strict=False, section_schemas=section_schemas))
+            if tr != tv:
+                fails.append(("C09:unlisted:reused-validator-differs-from-fresh",
+                              f"a Validator that validated other documents before answers {sorted(tr, key=repr)}, a fresh one {sorted(tv, key=repr)} ({label}) | text={text!r}"))
             if "validator" not in base:
                 base["validator"] = (label, tv, text)
             elif tv != base["validator"][1]:
@@ -253,6 +283,10 @@ def V_of(src: str, v):
 def instance_doc(case):
     kids = [{"t": "assign", "key": k, "value": V_of(*c08.INSTANCE_VALUES[i]), "lead": [], "trail": None} for k, i in case["assigns"]]
     body = [{"t": "block", "key": case["name"], "target": None, "kids": kids, "lead": [], "tail": []}]
+    if case.get("declares_target"):
+        # a block annotation declares a custom routing target for this document
+        body.append({"t": "block", "key": "ARCHIVE", "target": "AUDIT_LOG", "lead": [], "tail": [],
+                     "kids": [{"t": "assign", "key": "X", "value": {"v": "int", "i": "1"}, "lead": [], "trail": None}]})
     if case.get("extra_top"):
         body.append({"t": "assign", "key": "OTHER", "value": {"v": "str", "s": "x -> y", "cls": "hostile"}, "lead": ["a note"], "trail": None})
     return {"name": "INSTANCE", "sentinel": None, "frontmatter": None, "meta": [["TYPE", {"v": "str", "s": "T", "cls": "word"}]], "sep": False,
@@ -267,7 +301,10 @@ def check_generated(case, root):
     os.makedirs(sdir, exist_ok=True)
     spath = os.path.join(sdir, name.lower() + ".oct.md")
     with open(spath, "w", encoding="utf-8") as fh:
-        fh.write(c08.schema_text(name, case["policy"], [(f, c) for f, c in case["fields"]]))
+        flds = [(f, list(c)) for f, c in case["fields"]]
+        if case.get("routes_to_target") and flds:
+            flds[0] = (flds[0][0], flds[0][1][:-1] + [flds[0][1][-1] + "→§AUDIT_LOG"])  # the first field routes to a custom target
+        fh.write(c08.schema_text(name, case["policy"], flds))
     doc = instance_doc(case)
     if not doc["body"][0]["kids"]:
         return [], False, []
@@ -297,7 +334,7 @@ def shard_generated(ctx: Ctx, sh: int, nshards: int, n: int) -> Stats:
             i = counter[0]
             counter[0] += 1
             case = {**base, "kind": "generated", "seeds": [(ctx.shard_seed(sh) + 17 * i + j) % (2**31) for j in range(2)],
-                    "with_write": i % 3 == 0, "extra_top": i % 2 == 0}
+                    "with_write": i % 3 == 0, "extra_top": i % 2 == 0, "routes_to_target": i % 4 == 1, "declares_target": i % 5 in (1, 2)}
             fails, nt, texts = check_generated(case, root)
             if not texts:
                 return
